@@ -350,7 +350,8 @@ pub fn handler_body(h: &str, args: Vec<Value>) -> expression_engine::Result<Valu
             let _ = expression_engine::parse_expression("1 - 2 * 3");
         }
         "execute" => {
-            let _ = expression_engine::execute("1 - 2 * 3", Context::new());
+            // a program of several statements inside whatever program is running
+            let _ = expression_engine::execute("x9 = 1 - 2 * 3; x9 += 1; x9", Context::new());
         }
         "regfun" => expression_engine::register_function("reent_f", Arc::new(|_| Ok(Value::None))),
         "regprefix" => expression_engine::register_prefix_op("reent_pre", Arc::new(|v| Ok(v))),
@@ -1062,6 +1063,20 @@ pub fn determinism_replay(args: &[String]) {
         if !ok {
             bad += 1;
             out.line(&json!({"mismatch": idx, "why": [format!("the program text {:?}, parsed from a line buffer that held other programs before, gave an outcome the specification does not give (status {} value {})", text, o.st, o.val)]}));
+        }
+    }
+    // a context created on this thread and first written on another one: contexts created here afterwards are still empty
+    {
+        let fresh = Context::new();
+        let _ = std::thread::spawn(move || guarded(move || expression_engine::execute("leak_probe_var = 42; leak_probe_var", fresh))).join();
+        let seen = guarded(|| (Context::new().get_variable("leak_probe_var"), expression_engine::execute("leak_probe_var", Context::new())));
+        n += 1;
+        match seen {
+            Ok((None, Ok(Value::None))) => {}
+            other => {
+                bad += 1;
+                out.line(&json!({"mismatch": 0, "why": [format!("a variable assigned on another thread to a context created on this one shows up in a NEW context: {:?}", other.map(|(a, b)| (a, b.ok())))]}));
+            }
         }
     }
     out.line(&json!({"summary": {"cases": n, "mismatches": bad, "text_path": text_cases, "text_path_skipped": text_skipped}}));
